@@ -121,6 +121,7 @@ class Driver:
         self.accept = accept          # (pattern) -> bool: generator-side filter
         self.interesting = interesting  # (pattern) -> bool: additional condition for a case to count as non-trivial
         self.judge_model = judge_model
+        self.on_parser_disagreement = None
         self.allow_empty = allow_empty
         self.count_model_nontrivial = False
         self.macros = None
@@ -132,8 +133,9 @@ class Driver:
 
     def new_listing(self, style=None):
         ctx = self.ctx
+        fixed = style
         for _ in range(20):
-            style = style or ctx.rng.choice(self.styles)
+            style = fixed or ctx.rng.choice(self.styles)
             insts = make_listing(ctx.rng, style)
             prep = dsl.Prepared(self.ws, insts, ctx.rng)
             ctx.ran()
@@ -143,6 +145,8 @@ class Driver:
                 return prep
             ctx.inconc("parser disagreement on synthetic listing")
             ctx.notes.append(prep.why) if len(ctx.notes) < 3 else None
+            if self.on_parser_disagreement:
+                self.on_parser_disagreement(self, prep)
         raise RuntimeError("no synthetic listing passes the parser agreement gate: " + prep.why)
 
     def run_pattern(self, pattern, desc, base_found: bool, prep=None):
@@ -174,7 +178,13 @@ class Driver:
             doc["pattern"] = pattern
             text = real.dump_rule(doc)
             try:
+                import time as _t
+                _t0 = _t.time()
                 o = dsl.evaluate(self.ws, prep, text, macros=self.macros, require_model=self.judge_model)
+                if _t.time() - _t0 > 15:
+                    ctx.event("slow_case_over_15s")
+                    if ctx.events["slow_case_over_15s"] >= 3:
+                        ctx.deadline = 0          # stop this shard early: what was observed so far is still reported
             except M.Unsupported as e:
                 ctx.inconc(f"model unsupported: {str(e)[:40]}")
                 return False
